@@ -168,9 +168,9 @@ def patSyncSourceOfCrossRename (st : St) (op : Op) : Bool :=
       | _ => false
   | _ => false
 
-/-- F-C07-12: the entries that survive a crash (persisted and in `synced_entries`) although one of
-    their proper ancestors does not: they stay keyed by their path and reappear inside any directory
-    created under the ancestor's name later -/
+/-- F-C07-12a (repaired by the crash-image repair, pattern number 13): the entries that survive a
+    crash (persisted and in `synced_entries`) although one of their proper ancestors does not: they stay
+    keyed by their path and reappear inside any directory created under the ancestor's name later -/
 def orphansAtCrash (fs : Fs) : List Path :=
   let dirs := fs.dirs.filter fun d => fs.synced.contains d
   let ents := ((fs.files.filter fun kv => fs.synced.contains kv.1).map fun kv => kv.1) ++ dirs
@@ -187,7 +187,7 @@ def tornShift (fs : Fs) : List Path :=
 def patOrphanAtCrash (st : St) (op : Op) : Bool :=
   op == .crash && !(orphansAtCrash st.fs).isEmpty
 
-/-- F-C07-12, second trigger: a name is brought into existence (mkdir, create_dir_all, file creation,
+/-- F-C07-12: a name is brought into existence (mkdir, create_dir_all, file creation,
     rename destination) that does not exist now but still carries durable state of a removed
     *directory* or a durable entry (persisted directory, or the path is in `synced_entries`): what is
     made durable for the new entry shows up under the old, still durable, one -/
@@ -200,8 +200,8 @@ def recreatedDirs (st : St) (op : Op) : List Path :=
   cands.filter fun q => !(dirExists st.fs q) && !(fileExists st.fs q) &&
     (st.fs.dirs.contains q || st.fs.synced.contains q)
 
-def patDirKeyedByPath (st : St) (op : Op) : Bool :=
-  patOrphanAtCrash st op || !(recreatedDirs st op).isEmpty
+/-- F-C07-12 (what is left of it after the crash-image repair): names re-created over durable state -/
+def patDirKeyedByPath (st : St) (op : Op) : Bool := !(recreatedDirs st op).isEmpty
 
 def opSlot : Op → Option Nat
   | .writeAt s _ _ => some s | .readAt s _ _ => some s | .write s _ => some s | .read s _ => some s
@@ -263,8 +263,8 @@ def patternsAt (st : St) (sp : Spec) (op : Op) : List Taint :=
           | .rename s t => if isChildOf s d != isChildOf t d then [s, t] else []
           | _ => []
       | _ => [])
-  ++ mk 12 (patDirKeyedByPath st op) ((if op == .crash then orphansAtCrash st.fs ++ tornShift st.fs else [])
-      ++ recreatedDirs st op)
+  ++ mk 12 (patDirKeyedByPath st op) (recreatedDirs st op)
+  ++ mk 13 (patOrphanAtCrash st op) (orphansAtCrash st.fs ++ tornShift st.fs)
   ++ mk 8 (patStaleHandle sp op st) (partners ++ match opSlot op with
       | some sl => match sGetSlot sp.l sl with
         | some sh => sp.l.ents.filterMap fun kv => if kv.2 == .file sh.fid then some kv.1 else none
@@ -302,7 +302,7 @@ def explain (ts : List Taint) (paths : List Path) : Option Nat :=
     | some t => some t.1
     | none => none
 
-def findingId (prop : String) (n : Nat) : String := s!"F-{prop}-{n}"
+def findingId (prop : String) (n : Nat) : String := if n = 13 then s!"F-{prop}-12a" else s!"F-{prop}-{n}"
 
 /-- whole-history versions (used by the theorems and the pure-Lean enumeration) -/
 def taintsOf (cfg : Cfg) : List Taint → St → Spec → List (Op × Ora) → List Taint
